@@ -25,7 +25,7 @@ func init() {
 			"a receiver with a different mapping (other kind / accuracy / offset); mapping omitted and none supplied; each decoded by DecodeDDSketch, DecodeDDSketchWithExactSummaryStatistics and DecodeAndMergeWith into rotating store kinds, fresh, non-empty and used-then-cleared receivers. Oracle (block boundaries from the independent parser): cut strictly inside a block -> error, no panic; " +
 			"cut at a boundary -> success iff a mapping is available, with exactly the content of the complete blocks; undefined flag / mismatch / missing mapping -> error, no panic. Non-trivial = encoding with >=2 store blocks or >=3 block types; distinct = hash of E.",
 		Cases:     core.Scale(40000, 400000),
-		Mandatory: []string{"fault.cut_inside_block", "fault.cut_at_boundary", "fault.flag_substitution", "fault.mapping_mismatch", "fault.missing_mapping", "cut.after_flag", "cut.between_primitives", "cut.in_varint", "cut.in_varfloat", "cut.in_float64", "decoder.exact", "decoder.plain", "receiver.nonempty", "receiver.used_then_cleared", "oracle.boundary_content_checks", "source.arbitrary_weights", "cut.in_9_byte_varfloat", "cut.window_on_longer_buffer"},
+		Mandatory: []string{"fault.cut_inside_block", "fault.cut_at_boundary", "fault.flag_substitution", "fault.mapping_mismatch", "fault.mapping_mismatch_within_stream", "fault.missing_mapping", "cut.after_flag", "cut.between_primitives", "cut.in_varint", "cut.in_varfloat", "cut.in_float64", "decoder.exact", "decoder.plain", "receiver.nonempty", "receiver.used_then_cleared", "oracle.boundary_content_checks", "source.arbitrary_weights", "cut.in_9_byte_varfloat", "cut.window_on_longer_buffer"},
 		Assumptions: []string{
 			"block boundaries are those found by the independent parser on the complete encoding",
 			"a failed decode is not required to leave the receiver unchanged",
@@ -342,6 +342,26 @@ func runC08(c *core.Ctx) {
 			if err == nil {
 				c.Failf("mapping_mismatch_accepted", "a stream with mapping %s was decoded into a receiver with mapping %s without error", m.Desc, om.Desc)
 				return
+			}
+			// the same mismatch inside one stream: the encodings of two sketches with different mappings one after
+			// the other, decoded with no mapping supplied (the first mapping block makes the receiver's mapping)
+			{
+				ob := mon.NewSketch(false, om.M, gen.RandPlainStore(r))
+				var e2 []byte
+				c.Guard("Encode", func() { ob.I().Add(om.ClampIn(2)); ob.I().Encode(&e2, false) })
+				stream := append(append([]byte{}, e...), e2...)
+				if r.Bool() {
+					stream = append(append([]byte{}, e2...), e...)
+				}
+				var derr error
+				if c.Guard("DecodeDDSketch(two mappings in one stream)", func() { _, derr = mon.Decode(false, stream, target, nil) }) {
+					return
+				}
+				c.Count("fault.mapping_mismatch_within_stream", 1)
+				if derr == nil {
+					c.Failf("mapping_mismatch_accepted:within_stream", "a stream holding the mapping blocks %s and %s was decoded (no mapping supplied) without error", m.Desc, om.Desc)
+					return
+				}
 			}
 			// static constructor too
 			var e2 error
